@@ -3,6 +3,7 @@ package main
 import (
 	"fmt"
 	"go/constant"
+	"go/token"
 	"go/types"
 	"regexp"
 	"sort"
@@ -583,5 +584,139 @@ func rootsAt(v ssa.Value, a *ssa.Alloc) bool {
 		default:
 			return false
 		}
+	}
+}
+
+// ---- no stored status value is rejected on import ----
+
+// importAcceptsEveryStatus: in the functions that run on genesis import (InitGenesis, its closures and the
+// repository functions it reaches), a value of a repository enum type (a record status) that is compared with
+// constants must not lead to a panic for any of the enum's named non-zero values: every status a record can
+// have on the running chain can be in an exported state.
+func (c *Check) importAcceptsEveryStatus(rule string) {
+	p := c.p
+	greach, _ := p.CG().Reach(p.Contexts().Genesis, nil)
+	var fns []*ssa.Function
+	for f := range greach {
+		if !p.isGenerated(f) && len(f.Blocks) > 0 && isProdPkgFn(f) {
+			fns = append(fns, f)
+		}
+	}
+	// closures of those functions
+	for _, f := range p.Funcs {
+		if f.Parent() != nil && greach[rootOf(f)] && !greach[f] && len(f.Blocks) > 0 {
+			fns = append(fns, f)
+		}
+	}
+	sort.Slice(fns, func(i, j int) bool { return fns[i].Pos() < fns[j].Pos() })
+	nCmp, nBad := 0, 0
+	for _, f := range fns {
+		// status-typed values compared with constants
+		type cmpEdge struct {
+			b     *ssa.BasicBlock
+			val   ssa.Value
+			konst int64
+			eqIdx int // successor index on which val == konst
+		}
+		byVal := map[ssa.Value][]cmpEdge{}
+		enumOf := map[ssa.Value]*Enum{}
+		for _, b := range f.Blocks {
+			iff, ok := b.Instrs[len(b.Instrs)-1].(*ssa.If)
+			if !ok {
+				continue
+			}
+			cond, neg := iff.Cond, false
+			for {
+				if u, ok := cond.(*ssa.UnOp); ok && u.Op == token.NOT {
+					cond, neg = u.X, !neg
+					continue
+				}
+				break
+			}
+			bo, ok := cond.(*ssa.BinOp)
+			if !ok || (bo.Op != token.EQL && bo.Op != token.NEQ) {
+				continue
+			}
+			v, k := bo.X, bo.Y
+			if _, isC := v.(*ssa.Const); isC {
+				v, k = k, v
+			}
+			kc, isC := k.(*ssa.Const)
+			nt := namedOf(v.Type())
+			if !isC || kc.Value == nil || nt == nil || nt.Obj().Pkg() == nil || !strings.HasPrefix(nt.Obj().Pkg().Path(), modPath) {
+				continue
+			}
+			if bt, isB := nt.Underlying().(*types.Basic); !isB || bt.Info()&types.IsInteger == 0 {
+				continue
+			}
+			en := p.EnumOf(nt)
+			if len(en.Values) < 2 {
+				continue
+			}
+			kv, _ := constant.Int64Val(constant.ToInt(kc.Value))
+			eqIdx := 0
+			if (bo.Op == token.NEQ) != neg {
+				eqIdx = 1
+			}
+			byVal[v] = append(byVal[v], cmpEdge{b, v, kv, eqIdx})
+			enumOf[v] = en
+		}
+		for v, edges := range byVal {
+			en := enumOf[v]
+			c.touch(f)
+			nCmp += len(edges)
+			// panics that depend on v: unreachable once every comparison edge of v is removed
+			all := map[edgeKey]bool{}
+			for _, e := range edges {
+				all[edgeKey{b: e.b, i: 0}] = true
+				all[edgeKey{b: e.b, i: 1}] = true
+			}
+			isPanic := func(in ssa.Instruction) bool { _, ok := in.(*ssa.Panic); return ok }
+			// panics decided by the status alone: every predecessor of the panicking block branches on this value
+			cmpBlock := map[*ssa.BasicBlock]bool{}
+			for _, e := range edges {
+				cmpBlock[e.b] = true
+			}
+			dependent := map[ssa.Instruction]bool{}
+			for _, b := range f.Blocks {
+				for _, in := range b.Instrs {
+					if !isPanic(in) || len(b.Preds) == 0 {
+						continue
+					}
+					okPreds := true
+					for _, pb := range b.Preds {
+						if !cmpBlock[pb] {
+							okPreds = false
+						}
+					}
+					if okPreds {
+						dependent[in] = true
+					}
+				}
+			}
+			if len(dependent) == 0 {
+				continue
+			}
+			for _, val := range en.Values {
+				if val == 0 {
+					continue // the zero value (unspecified) is never stored
+				}
+				avoid := map[edgeKey]bool{}
+				for _, e := range edges {
+					if e.konst == val {
+						avoid[edgeKey{b: e.b, i: 1 - e.eqIdx}] = true
+					} else {
+						avoid[edgeKey{b: e.b, i: e.eqIdx}] = true
+					}
+				}
+				if t, path := (&PathSearch{Fn: f, AvoidEdges: avoid, IsTarget: func(x ssa.Instruction) bool { return dependent[x] }}).Find(); t != nil {
+					nBad++
+					c.Violated(rule, "status-rejected-on-import "+en.Names[val]+" @ "+FuncKey(f), p.InstrPos(t), "genesis import panics for a "+typeShort(en.Type)+" of "+en.Names[val]+", a value records have on the running chain: a state exported while such a record exists cannot be imported", p.describePath(path)...)
+				}
+			}
+		}
+	}
+	if nBad == 0 {
+		c.Held(rule, "import-accepts-every-status", "", fmt.Sprintf("%d status comparisons in %d functions run on genesis import: no named status value leads to a panic", nCmp, len(fns)))
 	}
 }
